@@ -5,7 +5,7 @@ import ast
 
 from ..cfg import CFG
 from ..core import AnalysisError, own_nodes, short, unparse
-from ..rules import shape, isdrules
+from ..rules import shape, isdrules, match
 from . import common
 
 EXPLANATION = (
@@ -23,6 +23,8 @@ EXPLANATION = (
   " (FIN-hull) the content interval that lets from_model skip a single-region document is the hull of the content intervals (statement fold over one- and two-element sequences from the declared initial state);"
   " (DEP-frame, body) whenever the element handed to a recursive call can be the document body, the parent interval handed with it is (None, None);"
   " (MEMO-key) the interval / activity caches are not keyed by value objects;"
+  ' (ORD-children) the children of an ISD element are produced in document order; (ORD-display) display=none prunes the element before its children are visited;'
+  ' (REG-repoint) an element whose region is replaced in the document is re-pointed at the replacing region object;'
 )
 RULE_TEXT = "per guard x ordering table, per grid, per call site, per truth table"
 UNDECIDED = ["interval arithmetic under arbitrary nesting as values", "text appears once each, in document order, nothing moved between regions (data dependent)",
@@ -79,14 +81,19 @@ def check_default_region(ctx):
   f = ix.func("ttconv.isd:ISD.from_model")
   ctx.unit(f.module)
   ok = False
-  why = "no `if regions: ... else: <default region>` found"
+  why = "no `if <regions>: ... else: <default region>` found"
+  # the local that holds the declared regions: assigned from <doc>.iter_regions()
+  rvars = {st.targets[0].id for st in own_nodes(f.node) if isinstance(st, ast.Assign) and len(st.targets) == 1 and isinstance(st.targets[0], ast.Name)
+           and any(isinstance(c, ast.Call) and isinstance(c.func, ast.Attribute) and c.func.attr == "iter_regions" for c in ast.walk(st.value))}
   for n in own_nodes(f.node):
-    if isinstance(n, ast.If) and unparse(n.test) in ("regions", "len(regions) > 0", "regions is not None and len(regions) > 0") and n.orelse:
-      else_txt = "\n".join(unparse(s) for s in n.orelse)
-      body_txt = "\n".join(unparse(s) for s in n.body)
+    pol = match.nonempty_test(n.test, lambda e: isinstance(e, ast.Name) and e.id in rvars) if isinstance(n, ast.If) and n.orelse else None
+    if pol is not None:
+      some, none = (n.body, n.orelse) if pol else (n.orelse, n.body)
+      else_txt = "\n".join(unparse(s) for s in none)
+      body_txt = "\n".join(unparse(s) for s in some)
       ok = "DEFAULT_REGION_ID" in else_txt and "_process_element" in else_txt and "for" in body_txt and "_process_element" in body_txt
       # selected region of the default-region call must be None so that content without region is selected
-      for c in ast.walk(ast.Module(body=n.orelse, type_ignores=[])):
+      for c in ast.walk(ast.Module(body=none, type_ignores=[])):
         if isinstance(c, ast.Call) and unparse(c.func).endswith("_process_element"):
           pe = ix.func("ttconv.isd:ISD._process_element")
           sel_i = pe.params.index("selected_region") if "selected_region" in pe.params else 4
